@@ -193,6 +193,10 @@ def run(pid, tier, replay=None):
     binaries = [("enum", binary)]
     if pid == "C14":
         binaries.append(("nan_boxing", vlib.build_harness(nan_boxing=True)))
+    if pid in ("C19", "C17") and not replay:
+        # sessions and module graphs once more under a collection at every allocation: recompiling into a live module,
+        # module objects, import fibers and the session's definitions must all survive it
+        binaries.append(("enum+gc", binary))
     kf = {f["id"]: f for f in vlib.known_findings().get("findings", []) if pid in f.get("properties", [])}
     if replay:
         rp = json.load(open(replay))["replay"]
@@ -224,6 +228,8 @@ def run(pid, tier, replay=None):
     vm2 = []
     for rep, b in binaries:
         extra = {"classes": ["exc"], "max_events": 200000} if pid in UNWIND_PIDS else {}
+        if rep.endswith("+gc"):
+            extra = dict(extra, gc={"every": 1, "force_full": True})
         res = vlib.run_batch(b, [dict({k: x[k] for k in ("id", "files", "repl") if k in x}, **extra) for x in vmcases], per_case_timeout=20)
         for x in vmcases:
             y = dict(x)
